@@ -199,4 +199,19 @@ def calcWith (repaired : Bool) (now : Int) (ref : Ref) (o : Options) : LiveTimin
 def calculateLiveParams (now : Int) (ref : Ref) (o : Options) : LiveTiming :=
   calcWith true now ref o
 
+/-- what a manifest hands on to the next request (manifest_context.py:329-331 `create_period`): the
+*resolved* availabilityStartTime and timeShiftBufferDepth are written back into the options, every
+other option – in particular `minimumUpdatePeriod`, given or not, disabled or not – is kept as it was;
+`generate_cgi_parameters` then spells this option vector into MPD/Location, MPD/PatchLocation and
+the media URLs. -/
+def handOn (t : LiveTiming) (o : Options) : Options :=
+  { start := .explicit t.availabilityStartTime t.utcOffsetMin
+    depth := some t.timeShiftBufferDepth
+    mup := o.mup
+    leeway := o.leeway }
+
+/-- the document obtained at `now₂` by following a URL written into the manifest of `now₁` -/
+def followed (now₁ now₂ : Int) (ref : Ref) (o : Options) : LiveTiming :=
+  calculateLiveParams now₂ ref (handOn (calculateLiveParams now₁ ref o) o)
+
 end DashLive.LiveTiming
